@@ -146,6 +146,13 @@ class Lexer:
                             self.line,
                             self.column,
                         )
+                elif escape == "\r":
+                    # Line continuation (CR or CR LF): contributes nothing
+                    if self._current() == "\n":
+                        self._advance()
+                elif escape in ("\n", "\u2028", "\u2029"):
+                    # Line continuation: contributes nothing
+                    pass
                 else:
                     # Unknown escape - just use the character
                     result.append(escape)
